@@ -95,17 +95,39 @@ fn drops(src: &PsetL, res: &PsetL, fails: &mut Vec<(String, String)>, dropped: &
     }
 }
 fn differing_fields(x: &PsetL, y: &PsetL) -> Vec<String> {
+    // exact comparison field by field (entry lists incl. order and multiplicity: a Vec field with a duplicate differs from one without)
     let mut d = vec![];
     let (mx, my) = (maps_of(x), maps_of(y));
-    for (kind, pos, m) in &mx {
-        let o = my.iter().find(|(k, p, _)| k == kind && p == pos).map(|t| t.2);
-        let empty = vec![];
-        let o = o.unwrap_or(&empty);
-        for e in m.iter() { if !o.contains(e) { d.push(format!("{}:{}", kind, e.name)); } }
-        for e in o.iter() { if !m.contains(e) { d.push(format!("{}:{}", kind, e.name)); } }
+    let empty: MapL = vec![];
+    let mut keys: Vec<(String, usize)> = mx.iter().chain(my.iter()).map(|(k, p, _)| (k.clone(), *p)).collect();
+    keys.sort(); keys.dedup();
+    for (kind, pos) in keys {
+        let m = mx.iter().find(|(k, p, _)| *k == kind && *p == pos).map(|t| t.2).unwrap_or(&empty);
+        let o = my.iter().find(|(k, p, _)| *k == kind && *p == pos).map(|t| t.2).unwrap_or(&empty);
+        let mut names: Vec<&String> = m.iter().chain(o.iter()).map(|e| &e.name).collect();
+        names.sort(); names.dedup();
+        for n in names {
+            let a: Vec<&Entry> = m.iter().filter(|e| &e.name == n).collect();
+            let b: Vec<&Entry> = o.iter().filter(|e| &e.name == n).collect();
+            if a != b { d.push(format!("{}:{}", kind, n)); }
+        }
     }
     d.sort(); d.dedup();
     d
+}
+/// no (field, key) may occur twice in a map of the result (a Vec<Tweak> with a repeated scalar serialises to a duplicate key)
+fn duplicates(res: &PsetL, fails: &mut Vec<(String, String)>) {
+    for (kind, pos, m) in maps_of(res) {
+        for (i, e) in m.iter().enumerate() {
+            if m[..i].iter().any(|x| x.name == e.name && x.key == e.key) {
+                fails.push((format!("duplicate-{}-{}", kind, e.name.rsplit('.').next().unwrap()), format!("{} {} field {} holds the same key twice in the merge result", kind, pos, e.name)));
+            }
+        }
+    }
+}
+fn decodable(p: &Pset) -> bool {
+    let b = elements::encode::serialize(p);
+    matches!(catch_unwind(AssertUnwindSafe(|| elements::encode::deserialize::<Pset>(&b))), Ok(Ok(_)))
 }
 /// disjoint-or-identical: no (map, position, field, key) carries different values in the two listings, and the shapes agree
 fn compatible(x: &PsetL, y: &PsetL) -> bool {
@@ -167,6 +189,14 @@ fn eval_merge(al: &PsetL, bl: &PsetL) -> Out {
         let mut dropped = vec![];
         drops(&al, c, &mut fails, &mut dropped);
         drops(&bl, c, &mut fails, &mut dropped);
+        duplicates(c, &mut fails);
+        {   // Global::merge: modifiable flags are OR-ed (absent = 0), the PSET version is the maximum
+            let flag = |l: &PsetL| get(&l.g, "tx_data.tx_modifiable").and_then(|e| e.val.first().copied()).unwrap_or(0);
+            if flag(c) != (flag(&al) | flag(&bl)) { fails.push(("flags-not-or".into(), "tx_modifiable of the result is not the OR of the operands' flags".into())); }
+            let ver = |l: &PsetL| get(&l.g, "version").map(|e| u32::from_le_bytes(e.val.clone().try_into().unwrap_or([0; 4]))).unwrap_or(0);
+            if ver(c) != ver(&al).max(ver(&bl)) { fails.push(("version-not-max".into(), "PSET version of the result is not the maximum of the operands' versions".into())); }
+        }
+        if decodable(&a) && decodable(&b) && !decodable(m) { fails.push(("merge-result-not-decodable".into(), "both operands serialise and decode, the merge result does not".into())); }
         if let Ok(x) = &ua {
             if uid(m).as_ref() != Ok(x) {
                 if lt_fields_differ(&al, &bl) { fails.push(("C14-locktime-max-changes-unique-id".into(), "operands with equal unique ids differ in a required lock time; taking the maximum changes the computed lock time, the merged PSET has another unique id".into())); }
@@ -179,7 +209,7 @@ fn eval_merge(al: &PsetL, bl: &PsetL) -> Out {
                 Res::Ok(c2) => {
                     let d: Vec<String> = differing_fields(c, c2).into_iter().filter(|f| !dropped.contains(f)).collect();
                     let mut d2 = vec![]; let mut dr2 = vec![];
-                    drops(&al, c2, &mut d2, &mut dr2); drops(&bl, c2, &mut d2, &mut dr2);
+                    drops(&al, c2, &mut d2, &mut dr2); drops(&bl, c2, &mut d2, &mut dr2); duplicates(c2, &mut d2);
                     let d: Vec<String> = d.into_iter().filter(|f| !dr2.contains(f)).collect();
                     fails.extend(d2);
                     if !d.is_empty() { fails.push(("order-dependent".into(), format!("merge(a,b) and merge(b,a) of compatible descendants differ in {}", d.join(",")))); }
@@ -236,7 +266,7 @@ fn eval_family(ls: &[PsetL]) -> Out {
         let mut dropped = vec![];
         for r in &results {
             match r {
-                Res::Ok(c) => { for l in &ls { drops(l, c, &mut fails, &mut dropped); } }
+                Res::Ok(c) => { for l in &ls { drops(l, c, &mut fails, &mut dropped); } duplicates(c, &mut fails); }
                 Res::Panic => fails.push(("merge-panics".into(), "a merge order of a compatible family panicked".into())),
                 Res::Err(c) => {
                     let key = if c == "unique_id_mismatch" && (0..ls.len()).any(|i| lt_fields_differ(&ls[0], &ls[i])) { "C14-locktime-max-changes-unique-id" } else { "order-dependent-refusal" };
@@ -450,6 +480,78 @@ pub fn gen(rng: &mut ChaCha20Rng, n: usize, thorough: bool) -> Vec<Case> {
         } else {
             out.push(Case { text: format!("C14 fam {}", members.iter().map(show).collect::<Vec<_>>().join(" ")), tags, nontrivial: true });
         }
+    }
+    // (6) Global::scalars is a Vec merged by extend/sort/dedup: shared, overlapping and disjoint scalars in different positions, both directions
+    {
+        let t = &pool.tweaks;
+        let sc = |ix: &[usize]| -> Vec<Entry> { ix.iter().map(|i| Entry { name: "scalars".into(), key: Some(t[*i].clone()), val: vec![] }).collect() };
+        let shapes: Vec<(&str, Vec<usize>, Vec<usize>)> = vec![
+            ("shared-last", vec![0, 1], vec![1]), ("shared-first", vec![0, 1], vec![0]), ("shared-unsorted", vec![1, 0], vec![1]), ("shared-middle", vec![0, 1, 2], vec![1]),
+            ("overlap", vec![0, 1], vec![1, 2]), ("overlap-rev", vec![2, 1], vec![1, 0]), ("disjoint", vec![0], vec![1, 2]), ("identical-two", vec![0, 1], vec![0, 1]),
+            ("identical-two-rev", vec![0, 1], vec![1, 0]), ("self-unsorted-other-empty", vec![2, 0, 1], vec![]), ("three-one", vec![3, 0, 2], vec![0, 3]),
+        ];
+        for (name, xa, xb) in &shapes {
+            for perm in 0..(if thorough { 4 } else { 2 }) {
+                // different scalars play the roles in each repetition (their byte order differs)
+                let rot = |v: &Vec<usize>| -> Vec<usize> { v.iter().map(|i| (i + perm) % t.len()).collect() };
+                let base = to_model(&base_pset(rng, 1, 1));
+                let (mut a, mut b) = (base.clone(), base.clone());
+                for e in sc(&rot(xa)) { put(&mut a.g, e); }
+                for e in sc(&rot(xb)) { put(&mut b.g, e); }
+                out.push(mk_merge(&norm(&a), &norm(&b), vec![format!("scalars:{}", name), "dir:ab".into()]));
+                out.push(mk_merge(&norm(&b), &norm(&a), vec![format!("scalars:{}", name), "dir:ba".into()]));
+            }
+        }
+        // a family of three sharing scalars pairwise
+        let base = to_model(&base_pset(rng, 1, 1));
+        let mut ms = vec![];
+        for ix in [vec![0usize, 1], vec![1, 2], vec![2, 0]] { let mut m = base.clone(); for e in sc(&ix) { put(&mut m.g, e); } ms.push(norm(&m)); }
+        out.push(Case { text: format!("C14 fam {}", ms.iter().map(show).collect::<Vec<_>>().join(" ")), tags: vec!["scalars:family".into(), "family:3".into()], nontrivial: true });
+    }
+    // (7) every key-value field present in BOTH operands with overlapping contents: a = {e1, e2}, b = {e2, e3}
+    for &(map, f, kind) in FIELDS.iter().filter(|(_, f, k)| *k == Kind::Map && *f != "xpub") {
+        let _ = kind;
+        let base = to_model(&base_pset(rng, 2, 2));
+        let pos = if map == "G" { 0 } else { rng.gen_range(0..2) };
+        let mut es: Vec<Entry> = vec![];
+        let mut guard = 0;
+        while es.len() < 3 && guard < 200 { guard += 1; let e = sample(rng, &pool, map, f); if !es.iter().any(|x| x.key == e.key) { es.push(e); } }
+        if es.len() < 3 { continue; }
+        let (mut a, mut b) = (base.clone(), base.clone());
+        put(map_mut(&mut a, map, pos), es[0].clone()); put(map_mut(&mut a, map, pos), es[1].clone());
+        put(map_mut(&mut b, map, pos), es[1].clone()); put(map_mut(&mut b, map, pos), es[2].clone());
+        out.push(mk_merge(&norm(&a), &norm(&b), vec![format!("overlap:{}.{}", map, f)]));
+    }
+    // (8) several global xpubs at once: one identical in both, one suffix-related (other longer), one only in self, one only in other
+    for k in 0..(if thorough { 8 } else { 2 }) {
+        let base = to_model(&base_pset(rng, 1, 1));
+        let (mut a, mut b) = (base.clone(), base.clone());
+        let x = |i: usize| pool.xpubs[(i + k) % pool.xpubs.len()].clone();
+        let same = key_source(rng, 2);
+        put(&mut a.g, Entry { name: "xpub".into(), key: Some(x(0)), val: same.clone() });
+        put(&mut b.g, Entry { name: "xpub".into(), key: Some(x(0)), val: same });
+        let short = key_source(rng, 1);
+        let mut long = rbytes(rng, 4); long.extend(rbytes(rng, 8)); long.extend(&short[4..]);
+        let (sa, sb) = if k % 2 == 0 { (short.clone(), long.clone()) } else { (long, short) };
+        put(&mut a.g, Entry { name: "xpub".into(), key: Some(x(1)), val: sa });
+        put(&mut b.g, Entry { name: "xpub".into(), key: Some(x(1)), val: sb });
+        if k % 3 != 2 { put(&mut a.g, Entry { name: "xpub".into(), key: Some(x(2)), val: key_source(rng, 3) }); } else { put(&mut b.g, Entry { name: "xpub".into(), key: Some(x(2)), val: key_source(rng, 0) }); }
+        out.push(mk_merge(&norm(&a), &norm(&b), vec!["xpub:several-keys".into()]));
+    }
+    // (9) the modifiable flags (OR) and the PSET version (max) present in both operands with different values
+    for (fa, fb) in [(Some(1u8), Some(2u8)), (Some(4), None), (None, Some(3)), (None, None), (Some(5), Some(5))] {
+        let base = to_model(&base_pset(rng, 1, 1));
+        let (mut a, mut b) = (base.clone(), base.clone());
+        if let Some(v) = fa { put(&mut a.g, Entry { name: "tx_data.tx_modifiable".into(), key: None, val: vec![v] }); put(&mut a.g, Entry { name: "elements_tx_modifiable_flag".into(), key: None, val: vec![v] }); }
+        if let Some(v) = fb { put(&mut b.g, Entry { name: "tx_data.tx_modifiable".into(), key: None, val: vec![v] }); put(&mut b.g, Entry { name: "elements_tx_modifiable_flag".into(), key: None, val: vec![v ^ 1] }); }
+        out.push(mk_merge(&norm(&a), &norm(&b), vec!["flags:both".into()]));
+    }
+    for (va, vb) in [(2u32, 3u32), (3, 2), (2, 2)] {
+        let base = to_model(&base_pset(rng, 1, 1));
+        let (mut a, mut b) = (base.clone(), base.clone());
+        put(&mut a.g, Entry { name: "version".into(), key: None, val: va.to_le_bytes().to_vec() });
+        put(&mut b.g, Entry { name: "version".into(), key: None, val: vb.to_le_bytes().to_vec() });
+        out.push(mk_merge(&norm(&a), &norm(&b), vec!["version:both".into()]));
     }
     // (5) conflicting values for the same field (a combiner may pick either; nothing may be lost or panic)
     for _ in 0..(n / 4 + 2) {
